@@ -1777,18 +1777,44 @@ class Canon:
             r.pop("adj", None)          # a shared read of the length, whatever borrow the iterator took
             return usz({"k": "MethodCall", "name": "len", "fn": "std::vec::Vec<T, A>::len", "impl": "std::vec::Vec<T, A>::len", "fn_local": False,
                         "recv": r, "args": []})
-        if any(len(s_) > 2 for s_ in srcs):
-            # a sub-slice X[a..b]: only the single-source, no skip form is rewritten (index i runs over a..b itself)
-            if len(srcs) != 1 or lo_extra is not None or take is not None or enum:
+        offsets = [None] * len(srcs)        # per source: the start a of a sub-slice X[a..b] when the index runs from 0
+        if any(len(s_) > 2 for s_ in srcs) and len(srcs) == 1:
+            # a sub-slice X[a..b]: the single-source, no skip form is rewritten with the index i running over a..b itself
+            if lo_extra is not None or take is not None or enum:
                 return
             c_, _m, lo_n, hi_n, incl_n = srcs[0]
             if incl_n:
                 return
             lo_extra = lo_n
             hi = copy.deepcopy(hi_n) if hi_n is not None else length(c_)
+        elif any(len(s_) > 2 for s_ in srcs):
+            # zipped with a sub-slice: the index runs from 0 and addresses X[a + i]; the sub-slice has b - a elements
+            if lo_extra is not None or take is not None or enum or rev:
+                return
+
+            def slen(s_):
+                if len(s_) <= 2:
+                    return length(s_[0])
+                c_, _m, lo_n, hi_n, incl_n = s_
+                if incl_n:
+                    return None
+                h_ = copy.deepcopy(hi_n) if hi_n is not None else length(c_)
+                if lo_n is None:
+                    return h_
+                return usz({"k": "Binary", "op": "-", "l": h_, "r": copy.deepcopy(lo_n)})
+            lens_ = [slen(s_) for s_ in srcs]
+            if any(x is None for x in lens_):
+                return
+            for k_, s_ in enumerate(srcs):
+                if len(s_) > 2:
+                    offsets[k_] = s_[2]
+            hi = lens_[0]
+            for l_ in lens_[1:]:
+                hi = usz({"k": "Call", "f": {"k": "Def", "dk": "Fn", "fn": "std::cmp::min", "id": self._id(), "ty": "fn", "sp": list(isp)}, "args": [hi, l_]})
+            srcs = [tuple(s_[:2]) + tuple(s_[2:]) for s_ in srcs]
         else:
             hi = length(srcs[0][0])
-        for s in srcs[1:]:
+        for s in (srcs[1:] if not any(o is not None for o in offsets) and not (any(len(s_) > 2 for s_ in srcs) and len(srcs) > 1) else []):
             hi = usz({"k": "Call", "f": {"k": "Def", "dk": "Fn", "fn": "std::cmp::min", "id": self._id(), "ty": "fn", "sp": list(isp)}, "args": [hi, length(s[0])]})
         if take is not None:
             hi = usz({"k": "Call", "f": {"k": "Def", "dk": "Fn", "fn": "std::cmp::min", "id": self._id(), "ty": "fn", "sp": list(isp)}, "args": [hi, copy.deepcopy(take)]})
@@ -1803,13 +1829,16 @@ class Canon:
             return
         bsp = body.get("sp") or sp
         lets = []
-        for src_, q in zip(srcs, elem_pats):
+        for k_src, (src_, q) in enumerate(zip(srcs, elem_pats)):
             c, mutable = src_[0], src_[1]
             q2 = q["p"] if q.get("k") == "Ref" else q
             if q2.get("k") == "Wild":
                 continue
             ety = q2.get("ty", "")
-            idxn = {"k": "Index", "base": copy.deepcopy(c), "idx": usz({"k": "Local", "v": iv, "name": iname}), "id": self._id(),
+            ixe = usz({"k": "Local", "v": iv, "name": iname})
+            if offsets[k_src] is not None:
+                ixe = usz({"k": "Binary", "op": "+", "l": copy.deepcopy(offsets[k_src]), "r": ixe})
+            idxn = {"k": "Index", "base": copy.deepcopy(c), "idx": ixe, "id": self._id(),
                     "ty": ety.lstrip("&").replace("mut ", "", 1).strip() if q.get("k") != "Ref" else ety, "sp": [bsp[0], bsp[1], bsp[0], bsp[1]]}
             init = idxn if q.get("k") == "Ref" else {"k": "AddrOf", "mut": bool(mutable), "e": idxn, "id": self._id(), "ty": ety, "sp": [bsp[0], bsp[1], bsp[0], bsp[1]]}
             if q.get("k") != "Ref" and not q2.get("mut"):
